@@ -3,6 +3,7 @@
 // (a) direct: retry.Execute under scripted operations vs. a reference model (model.go), waits recorded
 // through the back-off observer; Validate on a boundary-value grid. (b) cancellation at every wait /
 // attempt. (c) end to end: Streamable and legacy-SSE clients against a scripted HTTP server.
+// (d) every public way of configuring retries (options.go), end to end, for every request kind.
 package main
 
 import (
@@ -32,9 +33,11 @@ func main() {
 	if err != nil {
 		r.Fatal("bound-not-listening socket: %v", err)
 	}
+	partOptions(r, refused)
 	partE2E(r, refused)
 
-	for _, c := range []string{"direct_scripts_enumerated", "direct_scripts_sampled", "direct_waits_compared", "direct_sequences_with_retry",
+	for _, c := range []string{"options_calls_streamable", "options_calls_legacy-sse", "options_sequences_with_retry", "options_waits_compared", "options_real_gaps_bounded_below", "options_real_wait_calls",
+		"direct_scripts_enumerated", "direct_scripts_sampled", "direct_waits_compared", "direct_sequences_with_retry",
 		"cancellations_during_wait", "e2e_scripts_streamable", "e2e_scripts_legacy-sse", "e2e_sequences_with_retry", "validate_configs"} {
 		if r.Counter(c) == 0 {
 			r.Fatal("vacuous run: monitor counter %s is 0", c)
@@ -54,6 +57,9 @@ func main() {
 			"end-to-end 'connection refused' is produced at the client's HTTP boundary by sending the request to a bound-but-not-listening port; timeouts are not driven end to end",
 			"factors off the grid are restricted to values whose powers are exact in binary floating point; a non-integral nanosecond product may be rounded either way",
 			"float64-to-Duration overflow behaviour is that of the machine the check runs on (amd64 here)",
+			"WithSimpleRetry(n) stands for {MaxRetries: n, 500ms, 2.0, 8s} (its documented defaults) before clamping",
+			"when several retry options are given the statement does not say which governs: a call is accepted when attempts, result and waits all follow ONE of them (the library was observed to follow the last)",
+			"a NaN factor has no nearest in-range value: any wait sequence Initial x F^(k-1) capped at Max with 1 <= F <= 10 is accepted",
 		})
 }
 
@@ -142,8 +148,6 @@ func partDirect(r *vh.Run, alpha []outcome, models []*cfgModel) {
 		switch {
 		case m.vc.MaxRetries == 3 && shape == "T2>terminal" && m.vc.BackoffFactor == 2 && m.vc.MaxBackoff == 8*time.Second && m.vc.InitialBackoff == 500*time.Millisecond:
 			key = "direct"
-		case m.vc.MaxRetries == 10 && shape == "T10>exhausted" && m.vc.BackoffFactor == 10 && m.vc.InitialBackoff == 30*time.Second && m.vc.MaxBackoff == 5*time.Minute:
-			key = "direct-top-of-range"
 		}
 		if key != "" {
 			n, _ := modelAttempts(m.vc.MaxRetries, kindsOf(script))
